@@ -11,7 +11,8 @@ import ast, builtins, functools, inspect, math, operator, struct, sys, textwrap,
 import hashlib as _hashlib
 import z3
 
-REPO = "/repo"
+import os as _os
+REPO = _os.environ.get("VERIF_REPO", "/repo")   # the default is the tree the checks are about; the override exists only to try changes in a scratch worktree
 DEBUG_FORKS = False
 FAST = True   # overflow side-queries off: the harness picks W with a stated margin (see bvx_worker)
 DUMP = None
